@@ -33,6 +33,10 @@ import (
 	"verif/lib"
 )
 
+// harnessPeerTimeout replaces the pool's 15 s peerTimeout for the whole test binary (set in TestMain through the
+// overlay shim, the way the package's own tests shorten it): honest doubles answer within well under a second.
+const harnessPeerTimeout = 3 * time.Second
+
 const bcChannel = byte(0x40) // BlockchainChannel of all three reactor versions
 
 // bcReactor is what the harness needs from a block-sync reactor (v0, v1 and v2 all provide it).
@@ -124,6 +128,11 @@ type double struct {
 	lastTopSeq int   // delivery sequence number of that status
 	asked      map[int64]int
 	pushed     map[int64]bool
+	// silence bookkeeping (driver goroutine only)
+	outstanding map[int64]bool // requests received and not (yet) answered with a block
+	answered    int
+	drained     bool      // outstanding has been empty after at least one answer
+	silentSince time.Time // since when it has owed blocks without delivering any (zero: owes nothing)
 }
 
 func (d *double) SendEnvelope(e p2p.Envelope) bool    { d.n.enqueue(d, e.Message); return true }
@@ -341,7 +350,7 @@ func (n *node) close() bool {
 }
 
 func (n *node) addDouble(spec *peerSpec) *double {
-	d := &double{Peer: p2pmock.NewPeer(nil), n: n, spec: spec, statusAt: -1, lastTop: -1, asked: map[int64]int{}, pushed: map[int64]bool{}}
+	d := &double{Peer: p2pmock.NewPeer(nil), n: n, spec: spec, statusAt: -1, lastTop: -1, asked: map[int64]int{}, pushed: map[int64]bool{}, outstanding: map[int64]bool{}}
 	n.mu.Lock()
 	d.idx = len(n.doubles)
 	n.doubles = append(n.doubles, d)
@@ -429,7 +438,14 @@ func (n *node) step() {
 		switch msg := m.msg.(type) {
 		case *bcproto.BlockRequest:
 			m.d.asked[msg.Height]++
+			if len(m.d.outstanding) == 0 {
+				m.d.silentSince = time.Now()
+			}
+			m.d.outstanding[msg.Height] = true
 			l := n.f.respond(m.d.spec, msg.Height)
+			if m.d.spec.Flaky && m.d.drained {
+				l = &lie{Kind: "silence", Silent: true, Height: msg.Height}
+			}
 			idx := int(msg.Height - n.sc.Initial)
 			rs := m.d.spec.Beyond
 			if idx >= 0 && idx < len(m.d.spec.Resp) {
@@ -532,6 +548,15 @@ func (n *node) step() {
 			n.deliver(e.d, &bcproto.NoBlockResponse{Height: e.l.Height})
 		default:
 			rec.Kind, rec.Height, rec.canon, rec.basicBad, rec.isBlock = e.l.Kind, e.l.Height, e.l.Canon, e.l.BasicBad, true
+			if !e.pushed {
+				delete(e.d.outstanding, e.l.Height)
+				e.d.answered++
+				e.d.silentSince = time.Now() // a delivered block re-arms the pool's timer for this peer
+				if len(e.d.outstanding) == 0 {
+					e.d.drained = true
+					e.d.silentSince = time.Time{}
+				}
+			}
 			if e.pushed {
 				rec.pushed = true
 				for _, o := range n.doubles {
@@ -572,7 +597,8 @@ type outcome struct {
 	finalState sm.State
 	// the pool's idea of the best peer height stayed above everything a connected peer claims
 	stuckMax, stuckBest, stuckPool int64
-	wedged                         bool // stopped early: a blame violation persisted (see blameViolations)
+	silent                         string // a peer that went silent was not dropped (see run)
+	wedged                         bool   // stopped early: a blame violation persisted (see blameViolations)
 }
 
 // run starts the node, connects the doubles in scenario order and drives the sync until the hand-over to
@@ -594,6 +620,7 @@ func (n *node) run(budget time.Duration) (*outcome, error) {
 	pv, _ := n.bcR.(poolView)
 	lastCheck, strikes := start, 0
 	lastBlame, blameStrikes := start, 0
+	lastSilent := start
 	for {
 		select {
 		case <-n.wrap.done:
@@ -626,6 +653,21 @@ func (n *node) run(budget time.Duration) (*outcome, error) {
 				}
 			} else {
 				blameStrikes = 0
+			}
+		}
+		// silent peers: the pool gives a peer that owes blocks peerTimeout to deliver one; a peer that has owed blocks
+		// for four times that long without delivering any, and is still connected, is not going to be dropped
+		if time.Since(lastSilent) > 400*time.Millisecond {
+			lastSilent = time.Now()
+			for i, d := range n.doubles {
+				if !d.isStopped() && !d.silentSince.IsZero() && len(d.outstanding) > 0 && time.Since(d.silentSince) > 4*harnessPeerTimeout {
+					out.timedOut = true
+					out.silent = fmt.Sprintf("peer %d (%s) has owed %d requested block(s) for %v without delivering anything (peer timeout %v) and has not been stopped",
+						i, d.spec.Role, len(d.outstanding), time.Since(d.silentSince).Round(100*time.Millisecond), harnessPeerTimeout)
+				}
+			}
+			if out.silent != "" {
+				break
 			}
 		}
 		// stall diagnosis (state-based; the clock only spaces the observations): with nothing in flight, the pool must
